@@ -702,6 +702,18 @@ struct ConvertOptions {
     in_calc: bool,
 }
 
+/// The math functions: their arguments are calculations, in which `+` and `-` must keep the whitespace
+/// around them (function names are ASCII case-insensitive).
+fn is_math_function(name: &str) -> bool {
+    const MATH_FUNCTIONS: [&str; 21] = [
+        "calc", "min", "max", "clamp", "round", "mod", "rem", "sin", "cos", "tan", "asin", "acos",
+        "atan", "atan2", "pow", "sqrt", "hypot", "log", "exp", "abs", "sign",
+    ];
+    MATH_FUNCTIONS
+        .iter()
+        .any(|x| name.eq_ignore_ascii_case(x))
+}
+
 fn convert_rpx_in_block(
     input: &mut StepParser,
     ss: &mut StyleSheetTransformer,
@@ -742,7 +754,7 @@ fn convert_rpx_in_block(
                     Token::Function(func) => {
                         let func: &str = func;
                         // functions nested in calc() (min, max, var...) are still inside it
-                        let config = if func.eq_ignore_ascii_case("calc") || in_calc {
+                        let config = if is_math_function(func) || in_calc {
                             Some(ConvertOptions { in_calc: true })
                         } else {
                             None
